@@ -1,5 +1,6 @@
 """Shared driver of the checks that use the timed system (C07, C08, C09, later C02/C16)."""
 from common import *
+import xcheck
 import tgen
 
 
@@ -30,7 +31,8 @@ def run_timed_check(pid, prop_file, theorem, ops, rule, assumptions, tier, seed,
     if not build_stage(rep):
         return rep.finish()
     cases = load_replay_case(replay) if replay else op_cases(ops, tier, rng, **kw)
-    correspond(rep, pid, cases, theorem)
+    res = correspond(rep, pid, cases, theorem)
+    xcheck.cross_check(rep, pid, cases, res, 40 if tier == "quick" else 400)
     c = rep.coverage
     hist = {}
     for _, _, t in cases:
